@@ -382,7 +382,8 @@ def check_C17(tier):
         if len(scen) % 5 in (1, 3) and len(sc["base"]) >= 2:  # keys other than 1..n in insertion order (the base is the same base)
             n_ = len(sc["base"])
             sc["keys"] = rng.choice([list(range(n_, 0, -1)), list(range(2, n_ + 1)) + [1], sorted(rng.sample(range(1, n_ + 4), n_)), rng.sample(range(1, n_ + 4), n_),
-                                     list(range(2, n_ + 2)), list(range(0, n_))])
+                                     list(range(2, n_ + 2)), list(range(0, n_)),
+                                     list(range(9, 9 + n_)), list(range(8 + n_, 8, -1))])  # two-digit keys: numeric and string order differ
         scen.append(sc)
     # bases whose Pareto front has several elements (a falsification can be charged to alternative conditionals)
     V = M.V
